@@ -63,14 +63,29 @@ ReachFix(G, R) ==
   IN IF R2 = R THEN R ELSE ReachFix(G, R2)
 Reach(G, nu) == ReachFix(G, [n \in NodesOf(G) |-> Succ(G, nu, n)])
 
+RECURSIVE PassesErr(_, _, _)
+PassesErr(G, n, fuel) ==     \* n may return results TOGETHER with an error: an Optional, seen through wrappers that pass both on
+  \/ G[n].k = "opt"
+  \/ fuel > 0 /\ G[n].k \in {"memo", "named", "pass", "ltrim", "rtrim"} /\ PassesErr(G, G[n].kids[1], fuel - 1)
+
 Admissible(G) ==
   LET nu == Nullable(G)
       R == Reach(G, nu)
-  IN /\ \A n \in NodesOf(G) : G[n].k \notin {"ltrim", "rtrim", "single", "suppress"}   \* no denotation here (trims: C10; Single / SuppressError change trees / errors only)
+  IN /\ \A n \in NodesOf(G) : G[n].k \notin {"single", "suppress"}    \* no denotation here (Single / SuppressError change trees / errors only)
+     \* trims have a (compositional) denotation only in the mode that allows any run: the other modes make the outcome depend
+     \* on WHICH alternative is looked at last (RightTrim) - those are C10's, through the machine
+     /\ \A n \in NodesOf(G) : G[n].k \in {"ltrim", "rtrim"} => G[n].mode = "nl"
+     \* (RightTrim leaves a result untrimmed when its operand returned an error next to it, which an Optional does whenever its
+     \* own operand failed: whether the empty alternative moves then depends on more than the end positions)
+     /\ \A n \in NodesOf(G) : G[n].k = "rtrim" => ~PassesErr(G, G[n].kids[1], Len(G))
      /\ \A n \in NodesOf(G) : \A e \in LeftEdges(G, nu, n) : e[2] => n \notin R[e[1]] /\ n # e[1]
      /\ \A n \in NodesOf(G) : G[n].k = "seq" /\ G[n].mode \in {"many", "many1"} => ~nu[G[n].kids[1]]
      /\ \A n \in NodesOf(G) : G[n].k = "seq" /\ G[n].mode \in {"sepby", "sepby1"} =>
                                   ~nu[G[n].kids[1]] /\ ~nu[G[n].kids[2]]
+
+\* "the returned tree starts at the first byte and ends at end of input" is a statement about grammars that do not skip
+\* blanks (a left trim in front moves the start, a right trim at the end is needed to reach the end at all)
+SpanDomain(G) == \A n \in NodesOf(G) : G[n].k \notin {"ltrim", "rtrim"}
 
 \* no node depends on itself at the same position (C03's domain)
 LRFree(G) == LET R == Reach(G, Nullable(G)) IN \A n \in NodesOf(G) : n \notin R[n]
@@ -126,6 +141,9 @@ FirstNonEmpty(T, kids, i, p) ==
   IF i > Len(kids) THEN {}
   ELSE IF T[kids[i]][p] # {} THEN T[kids[i]][p] ELSE FirstNonEmpty(T, kids, i + 1, p)
 
+RECURSIVE WsRunEnd(_, _)
+WsRunEnd(w, p) == IF p < Len(w) /\ w[p + 1] \in {32, 9, 10, 12} THEN WsRunEnd(w, p + 1) ELSE p
+
 EvalAt(G, w, T, n, p) ==
   LET g == G[n] IN
   CASE g.k = "term" -> IF p < Len(w) /\ w[p + 1] = g.ch THEN {p + 1} ELSE {}
@@ -135,6 +153,8 @@ EvalAt(G, w, T, n, p) ==
     [] g.k = "any" -> UNION {T[g.kids[i]][p] : i \in 1..Len(g.kids)}
     [] g.k = "choice" -> FirstNonEmpty(T, g.kids, 1, p)
     [] g.k \in {"memo", "named", "pass"} -> T[g.kids[1]][p]
+    [] g.k = "ltrim" -> T[g.kids[1]][WsRunEnd(w, p)]                          \* the operand starts behind the run
+    [] g.k = "rtrim" -> {WsRunEnd(w, e) : e \in T[g.kids[1]][p]}             \* every alternative's end moves behind the run that follows it
     [] g.k = "seq" -> Walk(G, T, n, 0, p)
 
 RECURSIVE Kleene(_, _, _, _, _)
